@@ -82,9 +82,8 @@ extern int mpt_data_convert_int8(const int8_t *from, MPT_TYPE(type) type, void *
 				struct iovec *vec = dest;
 				vec->iov_base = (void *) from;
 				vec->iov_len  = sizeof(*from);
-				return sizeof(*vec);
 			}
-			return MPT_ERROR(MissingData);
+			return sizeof(struct iovec);
 		default:
 			/* invalid conversion */
 			return MPT_ERROR(BadType);
@@ -156,9 +155,8 @@ extern int mpt_data_convert_uint8(const uint8_t *from, MPT_TYPE(type) type, void
 				struct iovec *vec = dest;
 				vec->iov_base = (void *) from;
 				vec->iov_len  = sizeof(*from);
-				return sizeof(*vec);
 			}
-			return MPT_ERROR(MissingData);
+			return sizeof(struct iovec);
 		default:
 			/* invalid conversion */
 			return MPT_ERROR(BadType);
@@ -234,9 +232,8 @@ extern int mpt_data_convert_int16(const int16_t *from, MPT_TYPE(type) type, void
 				struct iovec *vec = dest;
 				vec->iov_base = (void *) from;
 				vec->iov_len  = sizeof(*from);
-				return sizeof(*vec);
 			}
-			return MPT_ERROR(MissingData);
+			return sizeof(struct iovec);
 		default:
 			/* invalid conversion */
 			return MPT_ERROR(BadType);
@@ -312,7 +309,7 @@ extern int mpt_data_convert_uint16(const uint16_t *from, MPT_TYPE(type) type, vo
 				vec->iov_base = (void *) from;
 				vec->iov_len  = sizeof(*from);
 			}
-			return MPT_ERROR(MissingData);
+			return sizeof(struct iovec);
 		default:
 			/* invalid conversion */
 			return MPT_ERROR(BadType);
@@ -393,9 +390,8 @@ extern int mpt_data_convert_int32(const int32_t *from, MPT_TYPE(type) type, void
 				struct iovec *vec = dest;
 				vec->iov_base = (void *) from;
 				vec->iov_len  = sizeof(*from);
-				return sizeof(*vec);
 			}
-			return MPT_ERROR(MissingData);
+			return sizeof(struct iovec);
 		default:
 			/* invalid conversion */
 			return MPT_ERROR(BadType);
@@ -474,9 +470,8 @@ extern int mpt_data_convert_uint32(const uint32_t *from, MPT_TYPE(type) type, vo
 				struct iovec *vec = dest;
 				vec->iov_base = (void *) from;
 				vec->iov_len  = sizeof(*from);
-				return sizeof(*vec);
 			}
-			return MPT_ERROR(MissingData);
+			return sizeof(struct iovec);
 		default:
 			/* invalid conversion */
 			return MPT_ERROR(BadType);
@@ -559,9 +554,8 @@ extern int mpt_data_convert_int64(const int64_t *from, MPT_TYPE(type) type, void
 				struct iovec *vec = dest;
 				vec->iov_base = (void *) from;
 				vec->iov_len  = sizeof(*from);
-				return sizeof(*vec);
 			}
-			return MPT_ERROR(MissingData);
+			return sizeof(struct iovec);
 		default:
 			/* invalid conversion */
 			return MPT_ERROR(BadType);
@@ -644,9 +638,8 @@ extern int mpt_data_convert_uint64(const uint64_t *from, MPT_TYPE(type) type, vo
 				struct iovec *vec = dest;
 				vec->iov_base = (void *) from;
 				vec->iov_len  = sizeof(*from);
-				return sizeof(*vec);
 			}
-			return MPT_ERROR(MissingData);
+			return sizeof(struct iovec);
 		default:
 			/* invalid conversion */
 			return MPT_ERROR(BadType);
